@@ -116,8 +116,8 @@ Section Unary.
      row i of the stack is element i, checked by the correspondence run) *)
   Definition unop (l : list A) : list C := map f l.
 
-  (* accessor shape 1 (SO3.R, SO3.inv, SE3.t, SE3.inv, SO3.rpy, SO3.eul, det, Quaternion.s/v/vec/norm, SO2.theta,
-     SE2.xyt, Twist.se3/isprismatic/isunit, UnitQuaternion.R/rpy/eul ...):
+  (* accessor shape 1 (SO3.R, SO2.R, inv, SE3.t, rpy, eul, angvec, det, Quaternion.s/v/vec/norm/matrix/log, SO2.theta, SE2.xyt,
+     Twist.S/v/w/se3/isprismatic/isrevolute/isunit/unit/theta/pitch/pole/exp/SE3, UnitQuaternion.R/rpy/eul/angvec/SO3/SE3 ...):
          if len(self) == 1: return f(self.A)   else: return [f(x) for x in self.A] *)
   Definition acc_branch1 (l : list A) : pyval C :=
     match l with [a] => Bare (f a) | _ => PList (map f l) end.
@@ -130,15 +130,10 @@ Section Unary.
          return cls([f(x) for x in self])  *)
   Definition acc_map (l : list A) : pyval C := PList (map f l).
 
-  (* accessor shape 4 (Twist3.v, Twist3.w, Twist2.v, Twist2.w and what is built on them): reads self.data[0] *)
-  Definition acc_first (l : list A) : result (pyval C) :=
-    match l with a :: _ => Ok (Bare (f a)) | [] => Err IndexError end.
-
-  (* accessor shape 5 (SO3.angvec, UnitQuaternion.angvec, SO2.R, Quaternion.matrix, Quaternion.log/exp ...): hands
-     self.A / self.R as a whole to a single-value kernel; for an object holding several values the kernel
-     raises (the kind [e] is observed per method by the correspondence run) *)
-  Definition acc_single (e : exn) (l : list A) : result (pyval C) :=
-    match l with [a] => Ok (Bare (f a)) | _ => Err e end.
+  (* Two defective shapes were modelled here until the code was repaired (fix round 6): acc_first (Twist3.v/.w/.theta/.pitch/.pole,
+     Twist2.v/.w read self.data[0]; fixes 77cb365, a77df5a) and acc_single (SO2.R, angvec, Quaternion.log, UnitQuaternion.SO3()/SE3(),
+     Twist.exp()/SE3()/SE2(), isprismatic/isrevolute, unit handed the whole object to a single-value kernel; fixes 42a8032, 3803e60,
+     5d38d76, 7b9d842, 3804c67, 98c866c, 4908bfb).  Every one of those methods now has the acc_branch1 shape. *)
 End Unary.
 
 Section Interp.
